@@ -1,71 +1,59 @@
 (* C14/Props.v : property theorems for "every execution result stands alone".
-   Model: C03/ModelResult.v (heap of result objects sharing the circuit's measurement-gate
-   caches) + C14/Model.v (seeded generator, parallel helpers).
+   Model: C03/ModelResult.v (heap of result objects of one circuit object; results write the
+   circuit's measurement-gate caches but never read them) + C14/Model.v (seeded generator,
+   parallel helpers).
    Specification: [standalone] = for every result there is ONE list of shots, admissible for that
    result's own execution (shot count, support of its own Born distribution), that explains every
    samples/frequencies output read from it, and probabilities() is the Born marginal of its own
    state. *)
 From Coq Require Import List Bool Arith ZArith.
 From QV Require Import Base.Mat C03.ModelSamples C03.ModelProbs C03.ModelResult C03.ProofsResult
-     C14.Model C14.Proofs.
+     C14.Model C14.Proofs C14.HistoricalShared.
 Import ListNotations.
 
-(* FULL STATEMENT (results_standalone): forall cfg h, cfg_wf cfg -> hist_wf cfg 0 h = true ->
-   oracles_ok cfg (init cfg) h = true -> standalone cfg h.
-   It is FALSE of the faithful model (results share M.result): *)
-Theorem results_standalone_refuted :
-  exists cfg h, cfg_wf cfg /\ hist_wf cfg 0 h = true /\ oracles_ok cfg (init cfg) h = true /\
-                ~ standalone cfg h.
-Proof.
-  exists wit_cfg, wit_h.
-  exact (conj wit_cfg_wf (conj eq_refl (conj eq_refl wit_not_standalone))).
-Qed.
-Print Assumptions results_standalone_refuted.
+(* every history: any number of executions of the circuit object with any states and shot counts,
+   samples()/frequencies() (all binary/registers flags)/probabilities()/final_state on any result
+   in any order *)
+Theorem results_standalone :
+  forall cfg, cfg_wf cfg -> forall h,
+    hist_wf cfg 0 h = true -> oracles_ok cfg (init cfg) h = true -> standalone cfg h.
+Proof. exact all_histories_standalone. Qed.
+Print Assumptions results_standalone.
 
-(* the witness history (4 operations) and what the model returns for it *)
-Example results_standalone_witness :
-  wit_h = [Exec [1; 0]%Z 1; Exec [0; 1]%Z 1; Samples 0 false false [0]; Samples 1 false false []] /\
-  fst (run wit_cfg (init wit_cfg) wit_h) = [ODone; ODone; OSamplesDec [0]; OSamplesDec [0]].
-Proof. split; [reflexivity | exact wit_outputs]. Qed.
-
-(* the witness is minimal: every history of at most 3 operations stands alone *)
-Theorem results_standalone_minimal :
-  forall cfg h, cfg_wf cfg -> length h <= 3 -> hist_wf cfg 0 h = true ->
-                oracles_ok cfg (init cfg) h = true -> standalone cfg h.
-Proof. exact short_histories_standalone. Qed.
-Print Assumptions results_standalone_minimal.
-
-(* PART THAT HOLDS: histories in which samples()/frequencies() are only ever called on one
-   result r0 of the circuit object (any number of executions before/after, probabilities() on
-   any result, circuit.final_state, any accessor order and flags).
-   Missing w.r.t. the full statement: histories that read a second result. *)
-Theorem results_standalone_partial :
-  forall cfg r0, cfg_wf cfg -> forall h,
-    hist_wf cfg 0 h = true -> oracles_ok cfg (init cfg) h = true ->
-    single_reader r0 h = true -> standalone cfg h.
-Proof. exact single_reader_standalone. Qed.
-Print Assumptions results_standalone_partial.
-
-Example results_standalone_partial_nonvacuous :
+Example results_standalone_nonvacuous :
   let cfg := mkcfg 2 [[1]; [0]] in
   let h := [Exec [1; 0; 0; 1]%Z 2; Exec [0; 4; 0; 0]%Z 3; Freqs 1 true true [(2, 3)];
-            Probs 0 [1; 0]; Samples 1 false false [2; 2; 2]; Final] in
-  hist_wf cfg 0 h = true /\ oracles_ok cfg (init cfg) h = true /\ single_reader 1 h = true.
+            Samples 0 false false [0; 3]; Probs 0 [1; 0]; Samples 1 false false [2; 2; 2];
+            Freqs 0 false true []; Final] in
+  hist_wf cfg 0 h = true /\ oracles_ok cfg (init cfg) h = true /\
+  fst (run cfg (init cfg) h) =
+    [ODone; ODone; ORegFreqBin [[([true], 3)]; [([false], 3)]]; OSamplesDec [0; 3]; OProbs [1; 0; 0; 1]%Z;
+     OSamplesDec [2; 2; 2]; ORegFreqDec [[(0, 1); (1, 1)]; [(0, 1); (1, 1)]]; OFinal (Some 1)].
 Proof. vm_compute. auto. Qed.
 
+(* HISTORICAL (before the repair of result.py the results of one circuit object shared the
+   caches of its measurement gates): on the model of the old code the 4-operation history
+   r1=c(|0>); r2=c(|1>); r1.samples(); r2.samples() returned r1's shot for r2, which no admissible
+   list of shots of r2 explains *)
+Theorem results_standalone_refuted_before_repair :
+  fst (run_shared wit_cfg (init wit_cfg) wit_h) = [ODone; ODone; OSamplesDec [0]; OSamplesDec [0]] /\
+  ~ (exists sh, shots_ok wit_cfg [0; 1]%Z 1 sh /\
+                explains wit_cfg [0; 1]%Z sh (Samples 1 false false []) (OSamplesDec [0])).
+Proof. exact (conj wit_outputs_before_repair results_standalone_refuted_before_repair). Qed.
+Print Assumptions results_standalone_refuted_before_repair.
+
 (* a circuit object that is executed once (what parallel_parametrized_execution gives every
-   task by deep-copying the circuit): all accessor histories *)
+   task by deep-copying the circuit) *)
 Theorem one_execution_standalone :
   forall cfg w ns h, cfg_wf cfg ->
-    forallb (fun o => match o with Exec _ _ => false | _ => true end) h = true ->
     hist_wf cfg 0 (Exec w ns :: h) = true -> oracles_ok cfg (init cfg) (Exec w ns :: h) = true ->
     standalone cfg (Exec w ns :: h).
 Proof. exact one_execution. Qed.
 Print Assumptions one_execution_standalone.
 
-(* executions only append result objects and never touch the shared caches: whatever the order
-   in which the worker threads of parallel_execution reach execute_circuit, the same result
-   objects (own state, own probabilities, empty caches) are created *)
+(* executions only append result objects and never touch the caches: whatever the order in which
+   the worker threads of parallel_execution reach execute_circuit, the same result objects (own
+   state, own probabilities, empty caches) are created *)
 Theorem parallel_exec_results :
   forall cfg es m,
     m_gates (snd (run cfg m (exec_ops es))) = m_gates m /\
